@@ -40,7 +40,8 @@ def _is_const_q(q):
 
 class VecTrack:
     def __init__(self, tracked=r'^(nano::)?vector_t$|^(nano::)?tensor_t<nano::tensor_vector_storage_t, double, 1(UL)?>$',
-                 const_views=r'tensor_cmap_storage_t|vector_cmap_t|matrix_cmap_t|Map<const ', touch='nv_vec_touch'):
+                 const_views=r'tensor_cmap_storage_t|vector_cmap_t|matrix_cmap_t|Map<const ', touch='nv_vec_touch', extracted_lambdas=()):
+        self.extracted_lambdas = set(extracted_lambdas)   # lambda variables the spec extracts as functions of their own (Fn(lambda_index=..))
         self.tracked = tracked
         self.const_views = const_views
         self.touch = touch
@@ -282,7 +283,7 @@ class VecTrack:
                 # free of side effects on modelled objects, so that a call can be replaced by its (unknown) result
                 lam = unwrap(init[0])
                 body = [c for c in lam.get('inner', []) if c.get('kind') == 'CompoundStmt']
-                for b in body:
+                for b in ([] if v.get('name') in self.extracted_lambdas else body):
                     if self.underlying(P, b):
                         raise Unsupported(f'lambda {v["name"]} uses tracked vectors (extract it as a function of its own)')
                     P.check_pure(b, f'body of lambda {v["name"]}')
